@@ -231,7 +231,7 @@ theorem trusted_statement_false : ¬ trusted_statement := by
 
 /-- finding `ineligible-raises:unsupported-mapper`: a class whose mapper `_is_mapper_simple`
     refuses is not eligible, yet the flag is not a no-op: the classifier raises ValueError -/
-def cxComplexEnv : MapEnv := fun n => if n == "A" then .complex else .none
+def cxComplexEnv : MapEnv := fun n => if n == "A" then .complex false else .none
 theorem counterexample_ineligible_raises :
     eligible cxComplexEnv cxExtras = false
     ∧ isOk (deserialize exO {} cxExtras (.dict [(.str "m", .int 1)])) = true
